@@ -95,6 +95,12 @@ theorem sentinel_absent_in_output_old (o : Opts) (hp : o.pretty = true) (sql : S
 theorem generated_surgery_sites_audited :
     ∀ s ∈ SqlglotModel.Generated.C07.surgerySites, s ∈ auditedSurgerySites := by decide +kernel
 
+/-- every method whose rendering path branches on `self.pretty` outside the whitespace helpers (found by ast, re-extracted
+    every run) is on the audited allow-list (finite table, decided completely): a NEW pretty-only rendering path is not
+    covered by the whitespace theorems above and must be audited and given a corpus statement first -/
+theorem pretty_only_structural_branches_audited :
+    ∀ s ∈ SqlglotModel.Generated.C07.prettyBranchSites, s ∈ auditedPrettyBranches := by decide +kernel
+
 /-! ### Athena: generator options are applied by the engine the GENERATOR picks, the output is re-read by the engine the
 TOKENIZER picks (shared model: Model/Engine.lean, also used by C01) -/
 
